@@ -7,6 +7,8 @@ import manifest_data as md
 VERIF = os.path.dirname(os.path.dirname(os.path.abspath(__file__)))
 import glob, importlib
 for _f in sorted(glob.glob(os.path.join(os.path.dirname(os.path.abspath(__file__)), "fam_*.py"))):
+    if os.path.basename(_f)[:-3] not in md.READY_FAMILIES:
+        continue  # family still under construction: not claimed
     _m = importlib.import_module(os.path.basename(_f)[:-3])
     for pid, c in getattr(_m, "MANIFEST", {}).items():
         md.CLAIMS[pid] = c
